@@ -1,6 +1,6 @@
 (* C01  OPTIMAL is only ever reported together with an exact optimality certificate.
    Statements only: each closed by `exact`, each followed by Print Assumptions. *)
-From QSX Require Import LP.CertSound LP.OptTestSound LP.UserSound LP.DriverSound.
+From QSX Require Import LP.CertSound LP.OptTestSound LP.UserSound LP.DriverSound LP.LibSolution.
 Local Open Scope Q_scope.
 
 (* 1. the oracle by which real answers are judged is sound (all LPs, both readings of the sentinel) *)
@@ -57,3 +57,11 @@ Proof.
   exact (opt_test_sound_inf M _ _ B ps ds s (to_internal_wf M U) (to_internal_wf_logicals M U) T NS).
 Qed.
 Print Assumptions C01_driver_user_optimum.
+
+(* 6. maximisation problems: the simplex minimises the negated objective and ILLlib_solution reverses
+      the signs of value, duals and reduced costs; what is handed out certifies the MAX problem *)
+Theorem C01_max_sign_convention :
+  forall I P z y v, i_max P = true ->
+    check_kkt I (internal_min P) z y v = true -> check_kkt I P z (map Qopp y) (- v) = true.
+Proof. exact lib_solution_certificate. Qed.
+Print Assumptions C01_max_sign_convention.
